@@ -82,7 +82,7 @@ VARIABLES
     sock,       \* Unix socket file: "0600" | "absent"
     idleAge,    \* ghost: ticks since no registered connection is open (saturating at T)
     prog,       \* ghost: how many times each critical section ran (what the notification
-                \*        hook points let a replay wait for): counted, done, timer
+                \*        hook points let a replay wait for): counted, done, timer_runs
     hist
 
 state == <<lst, loop, held, backlog, active, timer, age, pending, curPending, shutdown, cl, sv,
@@ -297,7 +297,7 @@ TimerFire_CurrentStep ==
     /\ pending' = pending - 1
     /\ curPending' = FALSE
     /\ Decide
-    /\ prog' = [prog EXCEPT !.timer = @ + 1]
+    /\ prog' = [prog EXCEPT !.timer_runs = @ + 1]
     /\ UNCHANGED <<loop, held, active, timer, age, cl, out, ncalls, got, idleAge>>
 
 \* the func of a timer that expired and was then disarmed (Stop came too late)
@@ -305,7 +305,7 @@ TimerFire_StaleStep ==
     /\ pending > (IF curPending THEN 1 ELSE 0)
     /\ pending' = pending - 1
     /\ IF StaleFix THEN UNCHANGED <<shutdown, lst, sv, backlog, sock>> ELSE Decide
-    /\ prog' = [prog EXCEPT !.timer = @ + 1]
+    /\ prog' = [prog EXCEPT !.timer_runs = @ + 1]
     /\ UNCHANGED <<loop, held, active, timer, age, curPending, cl, out, ncalls, got, idleAge>>
 
 TimerFire ==
@@ -328,7 +328,7 @@ Init ==
     /\ got = [c \in Conn |-> <<>>]
     /\ sock = "0600"
     /\ idleAge = 0
-    /\ prog = [counted |-> 0, done |-> 0, timer |-> 0]
+    /\ prog = [counted |-> 0, done |-> 0, timer_runs |-> 0]
     /\ hist = << [a |-> "Init",
                   args |-> [NC |-> NC, Transport |-> Transport, Hooks |-> Hooks, T |-> T,
                             StaleFix |-> StaleFix],
